@@ -1,46 +1,291 @@
 package main
 
+// C04 — a specification-conformant controller can pair, verify and talk.
+// End-to-end: the independent reference controller (ref_crypto.go / ref_flows.go: own SRP-6a, TLV8, HKDF, AEAD, framing;
+// golang.org/x/crypto + stdlib only) against a real hc.NewIPTransport over loopback TCP. Every proof, signature and
+// derived key the accessory produces is verified with the specification's algorithms; the outcome vector is compared
+// with the symbolic run of HcModel/SpecController.lean over the labels regenerated from /repo.
+
 import (
+	"bytes"
+	"encoding/json"
 	"fmt"
+	"io/ioutil"
+	"math/big"
+	"math/rand"
+	"path/filepath"
+	"strings"
 
 	"github.com/brutella/hc/accessory"
+	"github.com/brutella/hc/db"
 )
 
 func init() { register("C04", checkC04) }
 
+func randomValidPin(r *rand.Rand) string {
+	for {
+		var p string
+		switch r.Intn(4) {
+		case 0:
+			p = fmt.Sprintf("%08d", r.Intn(1000)) // leading zeros
+		case 1:
+			p = fmt.Sprintf("%08d", 99999000+r.Intn(1000))
+		default:
+			p = fmt.Sprintf("%08d", r.Intn(100000000))
+		}
+		bad := false
+		for _, b := range []string{"12345678", "87654321", "00000000", "11111111", "22222222", "33333333", "44444444", "55555555", "66666666", "77777777", "88888888", "99999999"} {
+			if p == b {
+				bad = true
+			}
+		}
+		if !bad {
+			return p
+		}
+	}
+}
+
+func randomCtrlID(r *rand.Rand) string {
+	switch r.Intn(6) {
+	case 0:
+		return fmt.Sprintf("%08X-%04X-%04X-%04X-%012X", r.Uint32(), r.Intn(65536), r.Intn(65536), r.Intn(65536), r.Int63n(1<<48))
+	case 1:
+		return string(rune('a' + r.Intn(26)))
+	case 2:
+		return strings.Repeat("ü", 1+r.Intn(30)) // 2-byte runes, up to 60 bytes
+	case 3:
+		return "控制器-" + fmt.Sprint(r.Intn(1000)) + "-𝄞"
+	case 4:
+		return strings.Repeat("x", 64)
+	default:
+		return fmt.Sprintf("controller %d / test", r.Intn(100000))
+	}
+}
+
+func fmtPin(p string) string { return p[:3] + "-" + p[3:5] + "-" + p[5:] }
+
 func checkC04(c *Ctx) {
-	for i := 0; i < c.Pick(3, 50); i++ {
+	c.SetRule("full runs of an independent specification controller against hc.NewIPTransport over loopback TCP: random valid setup codes " +
+		"(incl. leading zeros), controller ids of 1-64 bytes (UUID form, multi-byte UTF-8, non-BMP), fresh key pairs, client SRP keys whose A has a " +
+		"leading zero byte (thorough), then pair-verify on a new connection and encrypted requests whose total size sweeps 1 B .. 64 KiB incl. exact " +
+		"multiples of 1024; plus the same controller with a wrong code. non-trivial = run reached the encrypted phase (or, for wrong-code runs, M4). " +
+		"The outcome vector is diffed with the symbolic run of the Lean model")
+	c.Assume("conformance is relative to the transcription of the HAP constants in HcModel/SpecController.lean and ref_crypto.go; " +
+		"SRP values A, B, S enter M1/M2/K in minimal big-endian form (Stanford reference; DESIGN.md §6 C04 limits)")
+	n := c.Pick(6, 60)
+	model := c.Model([]string{"spec run 1", "spec run 0"})
+	for i := 0; i < n; i++ {
 		id := c.CaseID("e2e", i)
 		if c.Skip(id) {
 			continue
 		}
 		r := c.CaseRng("e2e", i)
-		pin := fmt.Sprintf("%08d", r.Intn(100000000))
-		if pin == "12345678" {
-			continue
+		codeOk := i%3 != 2
+		c04Run(c, id, r, codeOk, c.Thorough() && i%10 == 5, model)
+	}
+}
+
+func c04Run(c *Ctx, id string, r *rand.Rand, codeOk, forceLeadingZeroA bool, model []string) {
+	pin := randomValidPin(r)
+	ctrlPin := pin
+	if !codeOk {
+		for ctrlPin == pin {
+			ctrlPin = randomValidPin(r)
 		}
-		a := accessory.NewSwitch(accessory.Info{Name: "Sw"})
-		acc, err := startE2E(c.ScratchDir(), pin, false, a.Accessory)
-		if err != nil {
-			c.Violate("transport does not start", id, pin, "started", err.Error())
-			continue
-		}
-		cl, _ := acc.Dial()
-		ident := newRefIdentity(r, "ctrl-1")
-		sr := refPairSetup(r, cl.Post(), pin[:3]+"-"+pin[3:5]+"-"+pin[5:], ident)
-		fmt.Println("setup:", sr.ErrAt, sr.ErrCode, sr.AccName, sr.M2Valid, sr.M6SigOK)
-		vr := refPairVerify(r, cl.Post(), ident, sr.AccLTPK)
-		fmt.Println("verify:", vr.ErrAt, vr.ErrCode, vr.AccName, vr.M2SigOK)
-		if vr.Shared != nil {
-			cl.Upgrade(vr.Shared)
-			m, err := cl.Do("GET", "/accessories", "", nil)
-			fmt.Println("GET:", err, m != nil && m.Status == 200, m != nil && len(m.Body) > 0)
-			if m != nil {
-				fmt.Println(string(m.Body)[:min(200, len(m.Body))])
+	}
+	ctrlID := randomCtrlID(r)
+	input := map[string]interface{}{"pin": pin, "controller_pin": ctrlPin, "controller_id": ctrlID, "code_ok": codeOk}
+	sw := accessory.NewSwitch(accessory.Info{Name: "Sw " + fmt.Sprint(r.Intn(100)), SerialNumber: strings.Repeat("S", r.Intn(3000))})
+	dir := c.ScratchDir()
+	acc, err := startE2E(dir, pin, false, sw.Accessory)
+	if err != nil {
+		c.Violate("transport does not start", id, input, "started", err.Error())
+		return
+	}
+	defer acc.Stop()
+	ident := newRefIdentity(r, ctrlID)
+	cl, err := acc.Dial()
+	if err != nil {
+		c.Violate("cannot connect", id, input, "connect", err.Error())
+		return
+	}
+	defer cl.Close()
+	rr := r
+	if forceLeadingZeroA {
+		// choose the client's SRP secret so that A has a leading zero byte (A < 2^3064): minimal vs padded encodings differ
+		for k := 0; k < 3000; k++ {
+			seed := r.Int63()
+			a := new(big.Int).SetBytes(randBytes(rand.New(rand.NewSource(seed)), 32))
+			if len(new(big.Int).Exp(refSrpG, a, refSrpN).Bytes()) < 384 {
+				rr = rand.New(rand.NewSource(seed))
+				input["A_leading_zero"] = true
+				c.Hist("A with leading zero byte")
+				break
 			}
 		}
-		cl.Close()
-		acc.Stop()
-		c.Count(pin, true, "e2e")
 	}
+	sr := refPairSetup(rr, cl.Post(), fmtPin(ctrlPin), ident)
+	database, _ := db.NewDatabase(dir)
+	ent, eerr := database.EntityWithName(ctrlID)
+	storedOK := eerr == nil && eqBytes(ent.PublicKey, ident.Pub) && ent.Name == ctrlID
+	uuid, _ := ioutil.ReadFile(filepath.Join(dir, "uuid"))
+	obs := map[string]string{}
+	obs["accepted"] = b01(sr.ErrAt == "" || !strings.HasPrefix(sr.ErrAt, "M4"))
+	obs["proof"] = b01(sr.M2Valid)
+	obs["stored"] = "none"
+	if storedOK {
+		obs["stored"] = "ctrl"
+	} else if eerr == nil {
+		obs["stored"] = "other"
+	}
+	obs["m6"] = b01(sr.M6SigOK)
+	if codeOk {
+		if sr.ErrAt != "" {
+			c.Violate("specification controller with the right setup code cannot complete pair-setup", id, input, "M6 verified", sr.ErrAt)
+		} else {
+			if sr.AccName != string(uuid) {
+				c.Violate("accessory identifier in M6 differs from its device id", id, input, string(uuid), sr.AccName)
+			}
+			if dev, err := database.EntityWithName(string(uuid)); err != nil || !eqBytes(dev.PublicKey, sr.AccLTPK) {
+				c.Violate("accessory LTPK in M6 differs from its stored key", id, input, "stored key", hx(sr.AccLTPK))
+			}
+		}
+		if !storedOK {
+			c.Violate("controller name / key not stored exactly after a completed pair-setup", id, input, ctrlID+" "+hx(ident.Pub), fmt.Sprint(eerr, ent.Name, hx(ent.PublicKey)))
+		}
+	} else {
+		if !(strings.HasPrefix(sr.ErrAt, "M4 error") && sr.ErrCode == 2) {
+			c.Violate("wrong setup code is not answered with authentication error 2 at M4", id, input, "M4 error 2", fmt.Sprint(sr.ErrAt, " code=", sr.ErrCode))
+		}
+		if eerr == nil {
+			c.Violate("pairing stored although the setup code was wrong", id, input, "nothing stored", ent.Name)
+		}
+		if es, _ := database.Entities(); len(es) != 1 {
+			c.Violate("pairing store changed by a pair-setup with a wrong code", id, input, "only the accessory's own entity", fmt.Sprint(len(es), " entities"))
+		}
+	}
+	// ---- pair-verify on a new connection
+	accLTPK := sr.AccLTPK
+	if accLTPK == nil {
+		if dev, err := database.EntityWithName(string(uuid)); err == nil {
+			accLTPK = dev.PublicKey
+		}
+	}
+	v2ok := false
+	var cl2 *refClient
+	var vr *verifyResult
+	for attempt := 0; attempt < 1; attempt++ {
+		cl2, err = acc.Dial()
+		if err != nil {
+			c.Violate("cannot connect", id, input, "connect", err.Error())
+			return
+		}
+		defer cl2.Close()
+		vr = refPairVerify(r, cl2.Post(), ident, accLTPK)
+		v2ok = vr.M2SigOK
+	}
+	obs["v2"] = b01(v2ok)
+	obs["v4"] = b01(vr.Shared != nil)
+	if !v2ok {
+		c.Violate("accessory's pair-verify M2 does not verify under the specification", id, input, "signature by the accessory LTSK over accEph|id|ctrlEph", vr.ErrAt)
+	}
+	if codeOk && vr.Shared == nil {
+		c.Violate("paired specification controller cannot complete pair-verify", id, input, "verified", vr.ErrAt)
+	}
+	if !codeOk && vr.Shared != nil {
+		c.Violate("unpaired controller completed pair-verify", id, input, "error", "verified")
+	}
+	keys := true
+	reached := false
+	if vr.Shared != nil {
+		cl2.Upgrade(vr.Shared)
+		// encrypted request / response exchanges; total request sizes sweep over frame boundaries
+		want, _ := json.Marshal(struct {
+			Accessories []*accessory.Accessory `json:"accessories"`
+		}{[]*accessory.Accessory{sw.Accessory}})
+		sizes := []int{0, 1, 300, 1024, 1025, 2048, 4096, 4097, 10240, 65536}
+		if !c.Thorough() {
+			sizes = []int{0, 1024, 2048, 4097, 20480}
+		}
+		for _, total := range sizes {
+			m, err := c04SizedGet(cl2, total)
+			if err != nil || m.Status != 200 {
+				keys = false
+				c.Violate("encrypted request of a verified specification controller is not served", id,
+					map[string]interface{}{"run": input, "request_total_bytes": total}, "200 with the attribute database", fmt.Sprint(err, m))
+				break
+			}
+			got := bytes.TrimSpace(m.Body)
+			if !jsonEqual(got, want) {
+				keys = false
+				c.Violate("decrypted /accessories response differs from the accessory's attribute database", id,
+					map[string]interface{}{"run": input, "request_total_bytes": total}, trunc(string(want), 300), trunc(string(got), 300))
+				break
+			}
+			c.Hist(fmt.Sprintf("encrypted request bytes<=%d", bucketLen2(total)))
+			reached = true
+		}
+	}
+	obs["keys"] = b01(keys)
+	implVec := fmt.Sprintf("accepted=%s proof=%s stored=%s m6=%s v2=%s v4=%s keys=%s", obs["accepted"], obs["proof"], obs["stored"], obs["m6"], obs["v2"], obs["v4"], obs["keys"])
+	mi := 1
+	if codeOk {
+		mi = 0
+	}
+	c.Same("spec-run", id, input, model[mi], implVec)
+	c.Count(fmt.Sprint(input), reached || (!codeOk && strings.HasPrefix(sr.ErrAt, "M4")), fmt.Sprintf("codeOk=%v", codeOk), fmt.Sprintf("idlen<=%d", (len(ctrlID)/16+1)*16))
+	c.Sample(map[string]interface{}{"input": input, "outcome": implVec, "setup": sr.ErrAt, "verify": vr.ErrAt})
+	c.Trace()
+}
+
+// c04SizedGet sends GET /accessories padded with a header so that the whole request is exactly `total` bytes
+// (total = 0: no padding).
+func c04SizedGet(cl *refClient, total int) (*refMsg, error) {
+	base := "GET /accessories HTTP/1.1\r\nHost: acc.local\r\n"
+	pad := ""
+	if total > 0 {
+		overhead := len(base) + len("X-Pad: \r\n") + len("\r\n")
+		if total > overhead {
+			pad = strings.Repeat("p", total-overhead)
+		}
+	}
+	req := base
+	if pad != "" {
+		req += "X-Pad: " + pad + "\r\n"
+	}
+	req += "\r\n"
+	if err := cl.send([]byte(req)); err != nil {
+		return nil, err
+	}
+	for {
+		m, err := cl.next(cl.timeout)
+		if err != nil {
+			return nil, err
+		}
+		if m == nil {
+			return nil, fmt.Errorf("timeout waiting for response (request of %d bytes)", len(req))
+		}
+		if !m.Event {
+			return m, nil
+		}
+	}
+}
+
+func jsonEqual(a, b []byte) bool {
+	var x, y interface{}
+	if json.Unmarshal(a, &x) != nil || json.Unmarshal(b, &y) != nil {
+		return false
+	}
+	ja, _ := json.Marshal(x)
+	jb, _ := json.Marshal(y)
+	return bytes.Equal(ja, jb)
+}
+
+func bucketLen2(n int) int {
+	for _, b := range []int{0, 1, 1024, 2048, 4096, 8192, 16384, 65536} {
+		if n <= b {
+			return b
+		}
+	}
+	return 1 << 20
 }
